@@ -1,3 +1,4 @@
 /- Props/C11.lean — property C11: all theorems live in namespace CM.Props.C11, split over two files. -/
+import CircuitProofs.Props.C11Tie
 import CircuitProofs.Props.C11Base
 import CircuitProofs.Props.C11Mid
